@@ -371,7 +371,13 @@ func (g *G) chain() (Out, int) {
 	g.Kinds["chain"]++
 	var cur Out
 	level := LMember
-	switch g.intn("chainhead", 8) {
+	switch g.intn("chainhead", 9) {
+	case 8:
+		// a call of a function that is named async (an identifier here: neither => nor function follows)
+		a := g.args()
+		cur = Out{cat(tk("async"), a.Toks), "(async" + a.Str + ")"}
+		level = LLHS
+		g.Kinds["async-call"]++
 	case 0:
 		// new MemberExpression Arguments
 		callee := g.newCallee()
